@@ -79,11 +79,12 @@ def run(ctx):
         xs = torch.tensor([0.0, 0.5, 1.5, 2.0, 3.5], dtype=DT)
         for st in snodes.values():
             rank, dim, keepdim, mismatch, pred = int(st["rank"]), int(st["dim"]), bool(st["keepdim"]), bool(st["mismatch"]), st["pred"]
+            unit = int(st["unit"])
             pos = dim + rank if dim < 0 else dim
-            shape = [(6 if mismatch else 5) if k == pos else k + 2 for k in range(rank)]
+            shape = [(6 if mismatch else 5) if k == pos else (1 if k + 1 == unit else k + 2) for k in range(rank)]
             for method in ("trapz", "simpson", "cspline"):
                 n += 1
-                ctx.case(key=("shape", rank, dim, keepdim, mismatch, method))
+                ctx.case(key=("shape", rank, dim, keepdim, mismatch, unit, method))
                 y = torch.randn(*shape, dtype=DT)
                 sq = xitorch.integrate.SQuad(xs, method=method)
                 why = None
